@@ -115,6 +115,11 @@ func (c *checker) resultsFieldMutants(t resTarget, rng *rand.Rand) []resMutant {
 	}
 	for _, i := range idx {
 		i := i
+		// the entry itself replaced by a CBOR null (decodes to a nil pointer in the list)
+		withMeta("meta.txs_results", "null-entry", fmt.Sprintf("result %d replaced by null", i), func(m *cmtapi.BlockResultsMeta) bool {
+			m.TxsResults[i] = nil
+			return true
+		})
 		tr := func(field, mut, desc string, f func(r *abci.ResponseDeliverTx) bool) {
 			withMeta("meta.txs_results."+field, mut, fmt.Sprintf("result %d: %s", i, desc), func(m *cmtapi.BlockResultsMeta) bool {
 				if m.TxsResults[i] == nil {
